@@ -297,7 +297,7 @@ func (c *Ctx) errPropagated(call ssa.CallInstruction) (bool, string) {
 			nonNil = b.Succs[1]
 		}
 		// every path from nonNil must hit a return of e before anything else notable
-		q := PathQuery{StartBlock: nonNil, Cut: func(i ssa.Instruction) bool {
+		q := PathQuery{StartBlock: nonNil, StartPred: b, NonNil: map[ssa.Value]bool{e: true}, Cut: func(i ssa.Instruction) bool {
 			ret, ok := i.(*ssa.Return)
 			if !ok {
 				return false
@@ -331,39 +331,87 @@ func (c *Ctx) errPropagated(call ssa.CallInstruction) (bool, string) {
 // ---------------------------------------------------------------------------
 // event gates
 
-// gateFires returns the FireBefore sites of events whose "not handled, no
-// error" outcome dominates instruction at.
+// gated reports whether instruction at can only be reached, from the fire
+// site, over the fire's "not handled" and "no error" outcomes: no path from
+// the fire call to at avoids the edge on which handled is false, and none
+// avoids the edge on which the error is nil. (For straight-line code this is
+// edge dominance; it also covers a fire inside a loop over a list of events
+// that returns as soon as one is handled.)
+func (c *Ctx) gated(f Fire, at ssa.Instruction) bool {
+	if f.Handled == nil || f.Err == nil {
+		return false
+	}
+	from := f.Call.(ssa.Instruction)
+	if from.Parent() != at.Parent() {
+		return false
+	}
+	if !InstrDominates(from, at) && !Reaches(from, at) {
+		return false
+	}
+	if !InstrDominates(from, at) {
+		// the site must not be reachable without passing the fire at all
+		q0 := PathQuery{StartBlock: at.Parent().Blocks[0], Cut: func(i ssa.Instruction) bool { return i == from }, Goal: func(i ssa.Instruction) bool { return i == at }}
+		if q0.Find() != nil {
+			return false
+		}
+	}
+	// dominance-style facts (including those derived through phis)
+	fs := FactsAtInstr(at)
+	if HasFact(fs, func(x Fact) bool { return x.SaysBool(f.Handled, false) }) && HasFact(fs, func(x Fact) bool { return x.SaysNil(f.Err) }) {
+		return true
+	}
+	avoid := func(isGood func(Fact) bool) bool {
+		q := PathQuery{From: from, Goal: func(i ssa.Instruction) bool { return i == at }, Prune: func(a, b *ssa.BasicBlock) bool {
+			ef, ok := EdgeFact(a, b)
+			if !ok {
+				return false
+			}
+			if isGood(ef) {
+				return true
+			}
+			for _, d := range deriveOne(ef) {
+				if isGood(d) {
+					return true
+				}
+			}
+			return false
+		}}
+		return q.Find() != nil
+	}
+	if avoid(func(x Fact) bool { return x.SaysBool(f.Handled, false) }) {
+		return false
+	}
+	if avoid(func(x Fact) bool { return x.SaysNil(f.Err) }) {
+		return false
+	}
+	return true
+}
+
+func deriveOne(f Fact) []Fact { return DeriveFacts([]Fact{f}) }
+
+// gateFires returns the FireBefore sites whose "not handled, no error"
+// outcome gates instruction at.
 func (c *Ctx) gateFires(at ssa.Instruction) []Fire {
 	var out []Fire
-	fs := FactsAtInstr(at)
 	for _, f := range Fires(at.Parent()) {
-		if !f.Before || !f.Const || f.Handled == nil || f.Err == nil {
+		if !f.Before || !f.Const {
 			continue
 		}
-		if !InstrDominates(f.Call.(ssa.Instruction), at) {
-			continue
-		}
-		notHandled := HasFact(fs, func(x Fact) bool { return x.SaysBool(f.Handled, false) })
-		noErr := HasFact(fs, func(x Fact) bool { return x.SaysNil(f.Err) })
-		if notHandled && noErr {
+		if c.gated(f, at) {
 			out = append(out, f)
 		}
 	}
 	return out
 }
 
-// afterGate: FireAfter sites whose not-handled/no-error outcome dominates at.
+// afterGate: FireAfter sites whose not-handled/no-error outcome gates at.
 func (c *Ctx) afterGate(at ssa.Instruction) []Fire {
 	var out []Fire
-	fs := FactsAtInstr(at)
 	for _, f := range Fires(at.Parent()) {
-		if f.Before || !f.Const || f.Handled == nil || f.Err == nil {
+		if f.Before || !f.Const {
 			continue
 		}
-		if !InstrDominates(f.Call.(ssa.Instruction), at) {
-			continue
-		}
-		if HasFact(fs, func(x Fact) bool { return x.SaysBool(f.Handled, false) }) && HasFact(fs, func(x Fact) bool { return x.SaysNil(f.Err) }) {
+		if c.gated(f, at) {
 			out = append(out, f)
 		}
 	}
